@@ -23,7 +23,7 @@ try:
         keys = re.findall(r"key: (.*)", c.stdout)
         errs = re.findall(r"ANALYSIS-ERROR.*", c.stdout)
         return p, c.returncode, keys, errs
-    with ThreadPoolExecutor(8) as ex:
+    with ThreadPoolExecutor(16) as ex:
         res = list(ex.map(run, props))
 finally:
     subprocess.run(["git", "-C", "/repo", "checkout", "--", "."], check=True)
